@@ -58,3 +58,4 @@ CFG = {'level': 'exploration',
 CFG['level_text'] += ' Non-ASCII runes are also drawn from the edges of every range of the Unicode letter tables and from pairs that agree in their low 16 bits.'
 CFG['level_text'] += ' Each batch also starts 12 (thorough 60) fresh child processes whose very first calls into package module come from sixteen goroutines released together; every verdict must match the documented rules.'
 CFG['level_text'] += ' The path soup includes reserved stems that first occur inside a longer word and later stand as an element (falcon/con/driver.go).'
+CFG['level_text'] += ' The three path checks are asked a second time in the opposite order (file, import, module) and must repeat their verdicts.'
